@@ -70,7 +70,7 @@ Definition apply (cs : cstate) (m : msg) : cstate :=
   | MPolRemove p => mkC (c_ep cs) (remove p (c_pol cs)) (c_prof cs) (c_ips cs) (c_sa cs) (c_ns cs) (c_insync cs)
   | MProfUpdate p r => mkC (c_ep cs) (c_pol cs) (insert p r (c_prof cs)) (c_ips cs) (c_sa cs) (c_ns cs) (c_insync cs)
   | MProfRemove p => mkC (c_ep cs) (c_pol cs) (remove p (c_prof cs)) (c_ips cs) (c_sa cs) (c_ns cs) (c_insync cs)
-  | MIPSetUpdate s m => mkC (c_ep cs) (c_pol cs) (c_prof cs) (insert s (canon m) (c_ips cs)) (c_sa cs) (c_ns cs) (c_insync cs)
+  | MIPSetUpdate s m => mkC (c_ep cs) (c_pol cs) (c_prof cs) (insert s m (c_ips cs)) (c_sa cs) (c_ns cs) (c_insync cs)
   | MIPSetDelta s a r =>
       match lookup s (c_ips cs) with
       | Some m => mkC (c_ep cs) (c_pol cs) (c_prof cs) (insert s (members_delta m a r) (c_ips cs)) (c_sa cs) (c_ns cs) (c_insync cs)
@@ -311,11 +311,11 @@ Fixpoint match_groups (gs : list (list msg)) (ms : list msg) : bool :=
 Definition groups_at (k : nat) (s : stream) : list (list msg) :=
   flat_map (fun x => if Nat.eqb (fst x) k then [snd x] else []) s.
 
-Definition chan_agrees (nops : nat) (model : option (option nat * stream)) (ch : chan_obs) : bool :=
+Definition chan_agrees (nops : nat) (model : option (id * option nat * stream)) (ch : chan_obs) : bool :=
   match model with
   | None => false
-  | Some (cl, s) =>
-      opt_eqb Nat.eqb cl (ch_closed ch)
+  | Some (w, cl, s) =>
+      Nat.eqb w (ch_w ch) && opt_eqb Nat.eqb cl (ch_closed ch)
       && forallb (fun k => match_groups (groups_at k s) (msgs_at k (ch_msgs ch))) (seq 0 nops)
   end.
 
